@@ -10,7 +10,9 @@ bad = 0
 try:
     for sid in ids:
         meta = json.load(open("%s/seeded/%s/meta.json" % (V, sid)))
-        prop = meta["property"]
+        # a change can break the property its author was given only in the author's reading and be a plain
+        # violation of a sibling property: meta.json then names the check that is expected to report it
+        prop = meta.get("check_property", meta["property"])
         subprocess.run(["rsync", "-a", "--delete", "--exclude", "target", "--exclude", ".git", "--exclude", "test_output", "/repo/", repo + "/"])
         r = subprocess.run(["patch", "-p1", "-s", "-i", "%s/seeded/%s/patch.diff" % (V, sid)], cwd=repo, capture_output=True, text=True)
         if r.returncode != 0:
